@@ -484,7 +484,7 @@ func checkC10(c C10Case) Verdict {
 }
 
 func genC10(t *rapid.T) C10Case {
-	g := &gen.G{T: t, P: gen.Profile{RawBytes: true}}
+	g := &gen.G{T: t, P: gen.Profile{RawBytes: true, NestedPlural: true}}
 	return C10Case{Cmds: g.MsgStress(true)}
 }
 
